@@ -46,7 +46,9 @@ func (i *iter) Next(ctx context.Context) (err error) {
 
 	if !i.moved {
 		i.moved = true
-		return nil
+		// the first element must be in range too,
+		// the reverse iterator of tikv has no lower bound
+		return i.checkBorder()
 	}
 
 	i.count++
